@@ -50,7 +50,9 @@ Combined Scheme stmt_mutind from stmt_mut, stmts_mut.
 Fixpoint sapp (a b : stmts) : stmts :=
   match a with SNil => b | SCons s r => SCons s (sapp r b) end.
 
-Record fundef := mkFun { fd_params : list name; fd_globals : list (name * Q); fd_body : stmts }.
+(** [fd_defaults]: the default values of the LAST [length fd_defaults] parameters (`def f(s, n=2.0)`:
+    params [s; n], defaults [2]); Python evaluates them once, at definition: numbers here. *)
+Record fundef := mkFun { fd_params : list name; fd_defaults : list Q; fd_globals : list (name * Q); fd_body : stmts }.
 
 Definition fsem := list Q -> option Q.
 Definition env := list (name * Q).
@@ -157,14 +159,24 @@ Section Semantics.
     end.
 End Semantics.
 
-(** calling a definition: arity must match, the body must return a number *)
-Definition run_fun (F : list fsem) (fd : fundef) (vs : list Q) : option Q :=
-  if Nat.eqb (length (fd_params fd)) (length vs)
-  then match exec F (fd_globals fd) (combine (fd_params fd) vs) (fd_body fd) with
-       | Ret v => Some v
-       | _ => None
-       end
+(** positional call: too many arguments, or a missing argument without default, is a TypeError;
+    missing trailing arguments take their defaults *)
+Definition fill_defaults (nparams : nat) (defaults : list Q) (vs : list Q) : option (list Q) :=
+  let missing := Nat.sub nparams (length vs) in
+  if Nat.leb (length vs) nparams && Nat.leb missing (length defaults)
+  then Some (vs ++ map Qred (skipn (Nat.sub (length defaults) missing) defaults))
   else None.
+
+(** calling a definition: the arguments (with defaults) must fit, the body must return a number *)
+Definition run_fun (F : list fsem) (fd : fundef) (vs : list Q) : option Q :=
+  match fill_defaults (length (fd_params fd)) (fd_defaults fd) vs with
+  | Some vs' =>
+      match exec F (fd_globals fd) (combine (fd_params fd) vs') (fd_body fd) with
+      | Ret v => Some v
+      | _ => None
+      end
+  | None => None
+  end.
 
 Fixpoint sems_from (fds : list fundef) (F : list fsem) : list fsem :=
   match fds with
